@@ -20,7 +20,7 @@ alarms = [(os.path.basename(h), json.load(open(h + "/meta.json"))["verif"]) for 
 hsum = (f"{len(hs)} delivered, {len(quiet)} quiet on every check they were run against at the first run. "
         + (" ".join(f"**False alarm** on {n}: {one(v.get('first_run',''), 300)}" + (f" — now: {v['retest']}." if v.get('retest') else "") for n, v in alarms) if alarms else ""))
 tot = (f"Round 6 ({len(rows)} breaking changes delivered): {det} detected at the first run, {nofail} reported only as a violation without a failing input, "
-       f"{missed} missed → classes (39)–(49) (full text `docs/lessons7.txt`).")
+       f"{missed} missed → classes (39)–(52) (full text `docs/lessons7.txt`).")
 block = ("<!-- R6 BEGIN -->\n*Harmless rewrites:* " + hsum + "\n\n| seed | change (one line) | needs | first run | caught by (after strengthening) |\n|---|---|---|---|---|\n"
          + "\n".join(rows) + "\n\n" + tot + "\n<!-- R6 END -->")
 p = f"{V}/DESIGN.md"; s = open(p).read()
